@@ -118,8 +118,9 @@ func (this *UTFCodec) Forward(src, dst []byte) (uint, uint, error) {
 	if binary.BigEndian.Uint32(src[0:])&0x00FFFFFF == 0x00EFBBBF { // Byte Order Mark (BOM)
 		start = 3
 	} else {
-		// First (possibly) invalid symbols (due to block truncation).
-		for (start < 4) && (_UTF_SIZES[src[start]] == 0) {
+		// First (possibly) invalid symbols (due to block truncation): at most 3
+		// (what a cut 4-byte sequence leaves; the count is stored in 2 bits)
+		for (start < 3) && (_UTF_SIZES[src[start]] == 0) {
 			start++
 		}
 	}
